@@ -146,6 +146,7 @@ def map(
     to_process = []
     to_render = []
     to_scatter = []
+    operations = []
     for layer in layers:
         if not isinstance(layer, Layer):
             raise TypeError(f"Expected Layer object, got {type(layer)} instead. ")
@@ -165,6 +166,7 @@ def map(
             to_scatter.append({"data": layer.data, "params": layer.kwargs})
         else:
             to_process.append(layer.data)
+            operations.append(layer.operation)
             to_render.append(
                 {
                     "mode": layer.mode,
@@ -389,14 +391,20 @@ def map(
         ndim=ndim,
     )
 
-    # Apply operation along depth
-    binned = getattr(np, operation)(binned, axis=1)
-
-    # Handle thick maps
-    if thick and ((operation == "sum") or (operation == "nansum")):
-        binned *= zspacing
-        for layer in to_render:
+    # Apply operation along depth, using the operation of each layer
+    reduced = []
+    counter = 0
+    for ind, layer in enumerate(to_render):
+        ncomp = 1 if scalar_layer[ind] else 3
+        op = operations[ind]
+        part = getattr(np, op)(binned[counter : counter + ncomp], axis=1)
+        # Handle thick maps
+        if thick and ((op == "sum") or (op == "nansum")):
+            part *= zspacing
             layer["unit"] = layer["unit"] * dataz.unit
+        reduced.append(part)
+        counter += ncomp
+    binned = np.concatenate(reduced)
 
     # Mask NaN values
     mask = np.isnan(binned[-1, ...])
